@@ -815,6 +815,12 @@ impl fmt::Display for Type<'_> {
         #[cfg(feature = "ast-comments")]
         if let Some(comments) = &tc.comments_after_type {
           type_str.push_str(comments.to_string().trim_end());
+
+          // The second of exactly two choices is written on the same line, where
+          // it would become part of the comment
+          if self.type_choices.len() == 2 && comments.any_non_newline() {
+            type_str.push('\n');
+          }
         }
 
         continue;
